@@ -9,6 +9,7 @@
 import Proofs.Lemmas.BlakeRefine
 import Proofs.Lemmas.Blake2Refine
 import Proofs.Lemmas.BlakeTrace
+import Proofs.Lemmas.Blake2End
 namespace Proofs.C11
 open Model Model.Gen Proofs.Lemmas Proofs.Lemmas.BlakeWords
 
@@ -128,5 +129,55 @@ theorem final_flag_iff_last (c : Blake.Cfg) (pad : PadState) (M : List Nat) (pad
       (List.range (Blake2.trace c pad M padding).length).map
         (fun i => padding && i + 1 == (Blake2.trace c pad M padding).length) := by
   rw [BlakeTrace.trace_flags, BlakeTrace.trace_length]
+
+/-! ## BLAKE2: parameter block, digest length, end to end -/
+
+/-- the parameter block `Blake2.paramblock` builds from the keyword arguments is the layout of the BLAKE2 specification
+    (digest length, key length 0, fanout, depth, leaf length, node offset on 8 / 6 bytes, node depth, inner length,
+    14 reserved bytes for BLAKE2b, salt, personalization), for all parameters in range -/
+theorem paramblock_layout {c : Blake.Cfg} {V : Spec.Blake2.Variant} (h : Blake2End.Pair c V)
+    (sp : Spec.Blake2.Params) (hv : sp.valid V) :
+    Blake2.paramBytes c sp.digestLength (Blake2End.toModel sp) sp.salt sp.personal = Spec.Blake2.paramBlock V sp :=
+  Blake2End.paramBytes_eq h sp hv
+
+/-- `initstate(**params)` starts the chain value as IV xor parameter block, with the per-call digest length -/
+theorem blake2_init_refines {c : Blake.Cfg} {V : Spec.Blake2.Variant} (h : Blake2End.Pair c V)
+    (sp : Spec.Blake2.Params) (hv : sp.valid V) :
+    Blake2.initstate c (Blake2End.toModel sp) =
+      .ok { H := (Spec.Blake2.init V sp).map ofBV, pad := {}, outlen := sp.digestLength, t := 0 } :=
+  Blake2End.init_refines h sp hv
+
+/-- BLAKE2b / BLAKE2s END TO END: for every byte string and all parameters in range (digest length 1..64/32, salt,
+    personalization, fanout, depth, leaf length, node offset, node depth, inner length) the call of the model returns
+    exactly the RFC 7693 digest.  (`Blake2End.toModel sp` are the keyword arguments denoting `sp`; `Pair c V` is
+    (blake2b, BLAKE2b) or (blake2s, BLAKE2s).) -/
+theorem blake2_refines {c : Blake.Cfg} {V : Spec.Blake2.Variant} (h : Blake2End.Pair c V)
+    (sp : Spec.Blake2.Params) (hv : sp.valid V) (M : List Nat) (hM : ∀ b ∈ M, b < 256) :
+    Blake2.call c M (Blake2End.toModel sp) = .ok (Spec.Blake2.hash V sp M) :=
+  Blake2End.blake2_call_eq h sp hv M hM
+
+/-- BLAKE2: the returned digest has exactly the requested length -/
+theorem blake2_digest_length {c : Blake.Cfg} {V : Spec.Blake2.Variant} (h : Blake2End.Pair c V)
+    (sp : Spec.Blake2.Params) (hv : sp.valid V) (M : List Nat) (hM : ∀ b ∈ M, b < 256) (d : List Nat)
+    (hd : Blake2.call c M (Blake2End.toModel sp) = .ok d) : d.length = sp.digestLength := by
+  rw [blake2_refines h sp hv M hM] at hd
+  cases hd
+  exact Blake2End.hash_length V (Blake2End.pair_w h).1 sp hv M
+
+/-- a digest length outside 1..wsize is refused (`assert 0<self.outlen<=self.wsize`) -/
+theorem blake2_outlen_refused (c : Blake.Cfg) (p : Blake2.Params) (n : Nat) (hn : n = 0 ∨ c.wsize < n) (M : List Nat) :
+    ∃ e, Blake2.call c M { p with outlen := some n } = .error e := by
+  refine ⟨"AssertionError", ?_⟩
+  unfold Blake2.call Blake2.initstate
+  simp only [Option.getD_some]
+  rw [if_pos (by omega)]
+  rfl
+
+/-- non-vacuity: the default parameters (sequential mode, full-length digest, zero salt / personalization) are valid -/
+example : (⟨64, 1, 1, 0, 0, 0, 0, List.replicate 16 0, List.replicate 16 0⟩ : Spec.Blake2.Params).valid Spec.Blake2.blake2b := by
+  simp [Spec.Blake2.Params.valid, Spec.Blake2.blake2b, Spec.Blake2.Variant.maxOut]
+example : (⟨17, 2, 3, 1000, 5, 1, 9, List.replicate 8 255, List.replicate 8 7⟩ : Spec.Blake2.Params).valid Spec.Blake2.blake2s := by
+  simp [Spec.Blake2.Params.valid, Spec.Blake2.blake2s, Spec.Blake2.Variant.maxOut]
+example : Blake2End.Pair Blake2.blake2b Spec.Blake2.blake2b := Or.inl ⟨rfl, rfl⟩
 
 end Proofs.C11
